@@ -645,7 +645,7 @@ func (r *runner) runOn(sc *succ, plan []fault, dir string, n int, sizes []int, g
 	}
 	// clear text on the wire after the handshake?
 	clear := false
-	wire := res.Proxy.RawBytes[dir]
+	wire := res.Proxy.Raw(dir)
 	chunks := map[[16]byte]struct{}{}
 	for _, p := range payloads {
 		for o := 0; o+16 <= len(p); o += 16 {
